@@ -35,7 +35,11 @@ RULE = ('base file = synthesised world W1 on layouts v19/v20/v21/v21-L4D2/INFRA/
         'model/sprite/both shape detail props, static props in the 13 writer versions V4..V13/lightmap/Mesa with only the '
         'fields the version stores, entity lump with either output separator and values containing quotes, backslashes, '
         'tabs, CR, newlines, high bytes, commas; RLE visibility rows incl. 2100-cluster rows with zero runs around 255/256/'
-        '510); save; re-read; compare. Engine fit: out-of-range integers, over-long names (texture, static/detail prop '
+        '510); a share of the cases assigns values with REPEATED ENTRIES (equal-but-distinct planes, vertexes, equal and '
+        'reversed edges, texinfo, texdata on one material, texture names equal / equal up to case, faces, primitives, brushes '
+        'with equal or nested side runs, leafs with shared/nested face and brush runs, equal visibility rows, static props '
+        'with equal model names and leaf lists, equal detail props and dictionary entries, copied entities, cubemaps, '
+        'overlays); save; re-read; compare. Engine fit: out-of-range integers, over-long names (texture, static/detail prop '
         'model), 65 overlay faces must raise. Non-trivial = at least one assigned view is non-empty; distinct = distinct '
         '(W1, W2, view set). Restrictions: as C10, plus hammer ids of one face list are all set or all None (FACEIDS cannot '
         'mix), HDR-face hammer ids compared only when every view is replaced, original-face texinfo/hammer id not compared '
@@ -343,9 +347,11 @@ def classify(view: str, d: dict) -> str:
     return key
 
 
-def base_world(seed: int, ci: int, layout: str, sprp: Optional[str] = None, lzma: Optional[bool] = None) -> dict:
+def base_world(seed: int, ci: int, layout: str, sprp: Optional[str] = None, lzma: Optional[bool] = None, dups: bool = False) -> dict:
     rng = sub_rng(seed, 'c11-base', ci)
     opts: Dict[str, Any] = {'sprp_props': rng.randint(1, 2), 'scale': rng.choice((0, 1, 2)), 'four_commas': False}
+    if dups:
+        opts.update(dups=True, scale=2)
     if sprp:
         opts['sprp'] = sprp
     if lzma is not None:
@@ -431,12 +437,15 @@ def assign_and_reread(run, W1: dict, W2: dict, views: List[str], tmp: str, engin
         return None
 
 
-def engine_replace_all(run, seed: int, ci: int, layout: str, tmp: str, sprp: str, lzma: bool, wide_vis: bool) -> None:
-    case = {'engine': 'replace-all', 'ci': ci, 'layout': layout, 'sprp': sprp, 'lzma': lzma, 'wide': wide_vis}
+def engine_replace_all(run, seed: int, ci: int, layout: str, tmp: str, sprp: str, lzma: bool, wide_vis: bool,
+                       dups: bool = False) -> None:
+    case = {'engine': 'replace-all', 'ci': ci, 'layout': layout, 'sprp': sprp, 'lzma': lzma, 'wide': wide_vis, 'dups': dups}
     W1 = base_world(seed, ci, layout, sprp, lzma)
     extra: Dict[str, Any] = {}
     if wide_vis:
         extra = {'vis': 'wide', 'scale': 3}
+    if dups:
+        extra = {'dups': True, 'scale': 2 + ci % 2, 'sprp_props': 3}
     W2 = value_world(seed, ci, W1, **extra)
     rng = sub_rng(seed, 'c11-mat', ci)
     res = assign_and_reread(run, W1, W2, list(G.VIEWS), tmp, 'replace-all', case, rng)
@@ -464,6 +473,10 @@ def engine_replace_all(run, seed: int, ci: int, layout: str, tmp: str, sprp: str
                       engine='replace-all', case=case)
     run.count('replace_all_compared')
     run.count('layout_' + layout)
+    if W2.get('dups'):
+        run.count('c11_values_with_dups')
+        run.count('c11_replace_all_with_dups')
+        run.count('dups_' + layout)
     run.count('sprp_' + sprp)
     if W2['sprp']['props']:
         run.count('static_props_roundtripped', len(W2['sprp']['props']))
@@ -477,10 +490,13 @@ def engine_replace_all(run, seed: int, ci: int, layout: str, tmp: str, sprp: str
         run.count('wide_visibility_rows', W2['visibility']['clusters'])
 
 
-def engine_single(run, seed: int, ci: int, layout: str, tmp: str) -> None:
+def engine_single(run, seed: int, ci: int, layout: str, tmp: str, dups: bool = False) -> None:
     rng = sub_rng(seed, 'c11-single', ci)
-    W1 = base_world(seed, ci, layout, None, rng.random() < 0.3)
-    W2 = value_world(seed, ci, W1, scale=rng.choice((0, 1, 2, 3)))
+    W1 = base_world(seed, ci, layout, None, rng.random() < 0.3, dups=dups and ci % 2 == 0)
+    vopts: Dict[str, Any] = {'scale': rng.choice((0, 1, 2, 3))}
+    if dups:
+        vopts.update(dups=True, scale=2 + ci % 2, sprp_props=3)
+    W2 = value_world(seed, ci, W1, **vopts)
     k = rng.choice((1, 1, 1, 2, 3))
     views = rng.sample(G.VIEWS, k)
     # brush models are keyed by the entities of the entity lump: the two are only consistent when replaced together
@@ -488,7 +504,7 @@ def engine_single(run, seed: int, ci: int, layout: str, tmp: str) -> None:
         views.append('ents')
     if 'ents' in views and 'bmodels' not in views:
         views.append('bmodels')
-    case = {'engine': 'single', 'ci': ci, 'layout': layout, 'views': views}
+    case = {'engine': 'single', 'ci': ci, 'layout': layout, 'views': views, 'dups': dups}
     res = assign_and_reread(run, W1, W2, views, tmp, 'single', case, rng)
     if res is None:
         run.case(['single', ci, layout, views], True, tag='single')
@@ -518,6 +534,10 @@ def engine_single(run, seed: int, ci: int, layout: str, tmp: str) -> None:
                           engine='single', case=case)
         run.count('single_views_compared')
         run.count('layout_' + layout)
+        if W2.get('dups'):
+            run.count('c11_values_with_dups')
+            run.count('c11_single_views_with_dups')
+            run.count('dups_' + layout)
         run.count('view_' + v)
     try:
         G.dump_bsp(g)  # the whole file must still be parseable (bystander views consistent)
@@ -768,13 +788,27 @@ def main(run, shard=(0, 1)) -> None:
             ci += 1
             if mine(ci, shard):
                 engine_fit(run, run.seed, ci, 'vitamin', tmp, k * 6)
+        # repeated / identical entries in the assigned values (gen_bsp.apply_dups), again appended
+        all_layouts = list(G.LAYOUTS)
+        for k in range(len(all_layouts) * (60 if thorough else 6)):
+            ci += 1
+            if mine(ci, shard):
+                lay = all_layouts[k % len(all_layouts)]
+                vers = G.sprp_versions_for(lay)
+                engine_replace_all(run, run.seed, ci, lay, tmp, vers[(k // len(all_layouts)) % len(vers)], lzma=(k % 5 == 0),
+                                   wide_vis=False, dups=True)
+        for k in range(len(all_layouts) * (700 if thorough else 40)):
+            ci += 1
+            if mine(ci, shard):
+                engine_single(run, run.seed, ci, all_layouts[k % len(all_layouts)], tmp, dups=True)
     finally:
         shutil.rmtree(tmp, ignore_errors=True)
     probe.report(run)
     if shard[1] == 1:
         probe.check_reached(run)
     run.require('saves', 'replace_all_compared', 'single_views_compared', 'fit_rejected', 'rle_rows', 'rle_rows_510_plus',
-                'static_props_roundtripped', 'ents_comma_outputs', 'ents_esc_outputs')
+                'static_props_roundtripped', 'ents_comma_outputs', 'ents_esc_outputs', 'c11_values_with_dups',
+                'c11_replace_all_with_dups', 'c11_single_views_with_dups')
 
 
 def replay(run, data) -> None:
@@ -785,9 +819,10 @@ def replay(run, data) -> None:
     try:
         eng = case['engine']
         if eng == 'replace-all':
-            engine_replace_all(run, run.seed, case['ci'], case['layout'], tmp, case['sprp'], case['lzma'], case['wide'])
+            engine_replace_all(run, run.seed, case['ci'], case['layout'], tmp, case['sprp'], case['lzma'], case['wide'],
+                               case.get('dups', False))
         elif eng == 'single':
-            engine_single(run, run.seed, case['ci'], case['layout'], tmp)
+            engine_single(run, run.seed, case['ci'], case['layout'], tmp, case.get('dups', False))
         elif eng == 'fit':
             engine_fit(run, run.seed, case['ci'], case['layout'], tmp, case.get('k', 0))
         else:
